@@ -554,12 +554,15 @@ class Cluster:
 
         return True
 
-    def _serialize(self, reason):
+    def _check_config_version(self, reason):
         current = self._get_config_version()
         if self._config.version != current:
             raise ConfigVersionMismatch(
                 f"expected={current} actual={self._config.version} {reason}"
             )
+
+    def _serialize(self, reason):
+        self._check_config_version(reason)
 
         # Check the hash before the version update.
         if hash(self._config.json()) != self._config_hash:
@@ -575,12 +578,15 @@ class Cluster:
                 self._hostname,
             )
 
-    def _serialize_jobs(self, reason):
+    def _check_job_status_version(self, reason):
         current = self._get_job_status_version()
         if self._job_status.version != current:
             raise JobStatusVersionMismatch(
                 f"expected={current} actual={self._job_status.version} {reason}"
             )
+
+    def _serialize_jobs(self, reason):
+        self._check_job_status_version(reason)
 
         # Check the hash before the version update.
         if hash(self._job_status.json()) != self._config_hash:
@@ -624,6 +630,9 @@ class Cluster:
         hpc_job_ids,
         batch_index,
     ):
+        # Both files are written below. Reject stale copies before anything is written.
+        self._check_config_version("update_job_status")
+        self._check_job_status_version("update_job_status")
         self._job_status.hpc_job_ids = hpc_job_ids
         self._job_status.batch_index = batch_index
         status_lookup = {x.name: x for x in self._job_status.jobs}
